@@ -78,6 +78,8 @@ def _case_gradient(spec, rec):
     if not (simgen.all_converged(sim) and
             simgen.all_converged(sim, 'bfield')):
         raise Inconclusive("forward/adjoint solve did not converge")
+    if not simgen.data_converged(p, sim):
+        raise Inconclusive("responses below the accuracy of the solver")
     ncomp = {'isotropic': 1, 'HTI': 2, 'VTI': 2, 'triaxial': 3}[p.case]
     shape = tuple(int(n) for n in p.grid.shape_cells)
     exp_shape = shape if ncomp == 1 else (ncomp,)+shape
